@@ -22,7 +22,7 @@ def replay_file(path, pid):
     print(f"replay: property={pid} obligation={oblig} function={d.get('function')} unit={d.get('unit')}")
     print("replay: verifier output recorded at the time of the violation:")
     print(json.dumps(d.get("primary"), indent=1)[:1500])
-    r = subprocess.run([os.path.join(VERIF, "bin", "check"), pid, "--outdir", "/var/tmp/ww_replay_out"], capture_output=True, text=True)
+    r = subprocess.run([os.path.join(VERIF, "bin", "check"), pid, "--outdir", "/var/tmp/ww_replay_out.%d" % os.getpid()], capture_output=True, text=True)
     still = [l for l in r.stdout.split("\n") if "failed obligation:" in l and oblig and oblig in l]
     if r.returncode == 2:
         print("replay: the check is INCONCLUSIVE on the current tree"); print(r.stdout[-800:])
